@@ -137,7 +137,11 @@ func (syncService *SyncService[H]) WriteToStoreAndBroadcast(ctx context.Context,
 		return fmt.Errorf("invalid initial height; cannot be zero")
 	}
 	isGenesis := headerOrData.Height() == syncService.genesis.InitialHeight
-	// For genesis header/block initialize the store and start the syncer
+	// For genesis header/block initialize the store and start the syncer.
+	// The same goes for the first item a node publishes while its store is
+	// still empty: a sequencer that was stopped after committing its first
+	// block and before publishing it continues with a later height.
+	isGenesis = isGenesis || !syncService.isInitialized()
 	if isGenesis {
 		if err := syncService.store.Init(ctx, headerOrData); err != nil {
 			return errors.New("failed to initialize the store")
